@@ -31,3 +31,7 @@ def run(ctx, res):
     dispatch.decode_table(prog, engine.Filtered(res, {"E-map"}, ("return-shape", "corrupt-arm", "typed-arm", "arm-complete", "default-arm", "empty-arm")), rule="E-map")
     bitio.rule_guard_cursor(prog, res, bitio.PARSE, 2)
     bitio.import_transport(prog, res, signed=False)
+    # message 1029's text is a count-prefixed string as well (character count, byte count, bytes): its count / limit / byte-loop rules
+    import textrules
+    textrules.rule_limits(prog, engine.Filtered(res, {"X-lim"}))
+    textrules.rule_utf8_writers(prog, engine.Filtered(res, {"X-utf8"}, key_prefixes=("1029 decode",)))
